@@ -143,7 +143,7 @@ def run(tier, rep, ev):
         h = [{"op": "open"}]
         for _ in range(R.randrange(0, 3)):
             h.append({"op": "call", "k": R.choice(["writestr", "writef", "write"]), "n": R.randrange(1, 4), "fault": "none"})
-        nent = R.randrange(2, 6)
+        nent = R.randrange(2, 5)          # (at most 9 calls per session: contents are numbered session * 10 + call)
         ents = [{"k": "writedir", "n": 4, "fault": "none"}] + [{"k": R.choice(["write", "write", "writedir"]), "n": 5 + j, "fault": "none"} for j in range(nent)]
         if i % 4:
             j = R.randrange(1, len(ents))
